@@ -110,7 +110,7 @@ def _decode_printed(line):
 
 def run_tlc(work, module, cfg_text, files=None, extra=None, workers=None, timeout=600,
             simulate=None, depth=None, coverage=False, seed_=None, java_opts=None, dfid=None,
-            keep_raw=200000, line_sink=None):
+            keep_raw=200000, line_sink=None, stop_after=None):
     """Run TLC on specs/<module>.tla with the given cfg text.
 
     files: dict name->text of extra files placed next to the spec (JSON inputs).
@@ -153,10 +153,18 @@ def run_tlc(work, module, cfg_text, files=None, extra=None, workers=None, timeou
     p = subprocess.Popen(cmd, cwd=d, env=env, stdout=subprocess.PIPE, stderr=subprocess.STDOUT, text=True, errors="replace")
     raw = []
     rawlen = 0
+    nrec = 0
+    stopped = False
     for line in p.stdout:
         line = line.rstrip("\n")
         rec = _decode_printed(line)
         if rec is not None:
+            nrec += 1
+            if stop_after and nrec > stop_after:
+                if not stopped:
+                    stopped = True
+                    p.terminate()
+                continue
             if line_sink:
                 line_sink(rec)
             else:
@@ -169,6 +177,7 @@ def run_tlc(work, module, cfg_text, files=None, extra=None, workers=None, timeou
     res.wall = time.time() - t0
     res.raw = "\n".join(raw)
     res.timed_out = p.returncode == 124
+    res.stopped = stopped
     m = re.findall(r"(\d+) states generated, (\d+) distinct states found", res.raw)
     if m:
         res.generated, res.distinct = int(m[-1][0]), int(m[-1][1])
@@ -189,7 +198,7 @@ def run_tlc(work, module, cfg_text, files=None, extra=None, workers=None, timeou
         # an evaluation error inside the spec is machinery failure
         i = raw.index(errs[0])
         res.error = "\n".join(raw[i:i + 25])
-    elif p.returncode not in (0, 12, 13, 124) and not res.violated and not simulate:
+    elif p.returncode not in (0, 12, 13, 124) and not res.violated and not simulate and not stopped:
         res.error = "TLC exit %d\n%s" % (p.returncode, "\n".join(raw[-30:]))
     shutil.rmtree(d, ignore_errors=True)
     return res
